@@ -191,6 +191,14 @@ func Gen(t *rapid.T, cfg Config) World {
 		last.Content = src.Content
 		last.Modules = src.Modules
 		last.Extra = src.Extra
+		switch rapid.IntRange(0, 3).Draw(t, "ignoredonly?") {
+		case 0:
+			// ... or a copy that differs only in files the bundle never keeps
+			src0 := &w.Remotes[0]
+			src0.Extra = append(append(fsx.Tree{}, src0.Extra...), fsx.Node{Path: ".git/HEAD", Kind: "file", Content: "ref: a", Mode: 0644, Sec: 1500000000})
+			last.Extra = append(append(fsx.Tree{}, src.Extra...), fsx.Node{Path: ".git/HEAD", Kind: "file", Content: "ref: b (other checkout)", Mode: 0644, Sec: 1500000000},
+				fsx.Node{Path: ".terraform/plugins/x", Kind: "file", Content: "plugin", Mode: 0755, Sec: 1500000000})
+		}
 		if rapid.IntRange(0, 2).Draw(t, "nearclone?") == 0 {
 			// ... or differs in exactly one file
 			last.Extra = append(append(fsx.Tree{}, src.Extra...), fsx.Node{Path: "only-here.txt", Kind: "file", Content: "x", Mode: 0644, Sec: 1500000000})
